@@ -27,6 +27,13 @@ var replayHarnesses = map[string]replayHarness{
 	"C02": {map[string]string{"zz_govc_para_replay_test.go": "paragraph_replay_test.go"}, "TestGovcExcerptReplay", "excerpt", "unique-token article pages"},
 	"C04": {map[string]string{"zz_govc_hidden_replay_test.go": "hidden_replay_test.go"}, "TestGovcHiddenReplay", "leaks", "hidden/script content in main flow, tables and captions"},
 	"C05": {map[string]string{"zz_govc_hidden_replay_test.go": "hidden_replay_test.go"}, "TestGovcInertReplay", "not inert", "elements with handlers/ids/classes/styles in every element kind"},
+	"C07": {map[string]string{"zz_govc_nesting_replay_test.go": "nesting_replay_test.go"}, "TestGovcNestingReplay", "chain", "23 nestable structures x 1..4 items x 3 positions x 4 leaf modes + data tables r x c"},
+	"C08": {map[string]string{"zz_govc_media_replay_test.go": "media_replay_test.go"}, "TestGovcMediaReplay", "media", "28 text sequences x 21 media schemes (img, figure, video, youtube, tweet, data table)"},
+	"C09": {map[string]string{"zz_govc_views_replay_test.go": "views_replay_test.go"}, "TestGovcViewsReplay", "disagree", "20 block kinds singly and in ordered pairs; text-only articles for WordCount"},
+	"C14": {map[string]string{"zz_govc_markup_replay_test.go": "markup_replay_test.go"}, "TestGovcMarkupReplay", "precedence", "9 OpenGraph x 4 schema.org x 4 IE states x 4 opt-out variants"},
+	"C18": {map[string]string{"zz_govc_tableclass_replay_test.go": "tableclass_replay_test.go"}, "TestGovcTableClassReplay", "cascade", "31 rule switches: none, each, all compatible pairs, over 3x3 and 4x3 tables; 4 placements"},
+	"C19": {map[string]string{"zz_govc_embed_replay_test.go": "embed_replay_test.go"}, "TestGovcEmbedReplay", "embed", "36 hosts x 3 schemes x 4 element kinds + path shapes + lazy-load attributes"},
+	"C20": {map[string]string{"zz_govc_unlikely_replay_test.go": "unlikely_replay_test.go"}, "TestGovcUnlikelyReplay", "unlikely", "article sizes around the 500-word threshold x markers (class/id/role) x carriers x placements; page vs deleted vs renamed"},
 	"C15": {map[string]string{"zz_govc_title_replay_test.go": "title_replay_test.go"}, "TestGovcTitleReplay", "title", "title shapes x headings"},
 	"C16": {map[string]string{"zz_govc_pager_replay_test.go": "pager_replay_test.go"}, "TestGovcPagerLinksReplay", "not a real", "pagers with javascript:/off-site/malformed links, both algorithms"},
 	"C17": {map[string]string{"zz_govc_pager_replay_test.go": "pager_replay_test.go"}, "TestGovcConventionalPagerReplay", "expected", "N in 2..12 x k in 1..N x URL families"},
